@@ -728,8 +728,16 @@ func runOnce(c Case) ([]vk.Violation, map[string]bool) {
 		}
 	}
 	// (the neighbour batch processor logs its own drops through the same logger)
+	// Class label only, NOT asserted: the statement says nothing about the
+	// accuracy of the SDK's drop report, and the report is not attributable to
+	// one execution (a poll goroutine left behind by a Shutdown that ran out of
+	// time logs later, through the process-wide logger, into the capture of the
+	// next execution). It was asserted until the thorough tier (seed 3) raised
+	// it on the unchanged tree: "logged 20 dropped, 10 never exported" over two
+	// executions of one program, each with 10 overwritten records - a false
+	// alarm of the check, corrected here (DESIGN 7.2).
 	if int(logged) > neverExported && c.Neighbour != 4 {
-		bad("drop_report_exceeds_missing", "the processor logged %d dropped records but only %d emitted records were never exported", logged, neverExported)
+		classes["drop_report_exceeds_missing(not asserted)"] = true
 	}
 
 	if len(vs) > 0 {
